@@ -1,6 +1,7 @@
 package main
 
 import (
+	"errors"
 	"io"
 	"regexp"
 	"encoding/json"
@@ -29,6 +30,7 @@ type concP struct {
 	Procs    int  `json:"procs"`
 	Log      bool `json:"log"` // all clients also append records through ONE shared O_APPEND handle
 	Witness  string `json:"witness,omitempty"`
+	Watch    bool   `json:"watch,omitempty"` // directory handles opened BEFORE the clients start; some clients only list through them
 }
 
 // COp is one API-level call of a client program. Composite file writes are three calls (create, hwrite, hclose).
@@ -93,6 +95,21 @@ func concCases(prop, tier string, seed uint64) []Case {
 		}
 		pb, _ := json.Marshal(p)
 		cases = append(cases, Case{ID: fmt.Sprintf("c11-h%05d", i), Seed: subSeed(seed, prop, tier, fmt.Sprint(i)), Kind: "random", P: pb})
+	}
+	// watchers: every client holds directory handles from before the concurrent phase; every second client only lists through
+	// them while the others make, rename (also onto existing directories), and remove directories - calls that are several index
+	// updates each; a listing has to be the directory at ONE moment of some sequential order, never a state in between
+	nw := 60
+	if tier == "thorough" {
+		nw = 1500
+	}
+	for i := 0; i < nw; i++ {
+		p := concP{Cfg: cfgs[i%len(cfgs)], Clients: 2 + r.Intn(5), PerCl: 5 + r.Intn(4), Reopened: i%4 == 1, Procs: []int{2, 4, 16}[i%3], Watch: true}
+		if p.Clients*p.PerCl > 30 {
+			p.PerCl = 30 / p.Clients
+		}
+		pb, _ := json.Marshal(p)
+		cases = append(cases, Case{ID: fmt.Sprintf("c11-w%05d", i), Seed: subSeed(seed, prop, tier, "watch", fmt.Sprint(i)), Kind: "random", P: pb})
 	}
 	// one read-only handle shared by all clients (no writer in these histories: a partly read handle keeps the drive, open finding)
 	nrd := 16
@@ -173,7 +190,7 @@ func concStep(st *cState, in COp, out COut) (bool, *cState) {
 			return true, st // size of a file that is open for writing is "don't care" (write-back)
 		}
 		return (k == "d" || out.Size == sz) && out.Perm == n.Perm && (n.Uid == 0 || out.Uid == n.Uid), st
-	case "list":
+	case "list", "hlist":
 		n, _ := st.M.lookup(in.A)
 		if n == nil || !n.Dir {
 			return !out.OK, st
@@ -350,6 +367,8 @@ var concModel = porcupine.Model{
 var stableDirs = []string{"/s1", "/s2"}
 var stableFiles = []string{"/s1/alpha", "/s1/beta", "/s2/gamma"}
 var lockNames = []string{"/s1/lock", "/s2/lock", "/lock%"}
+var watchDirs = []string{"/", "/", "/s1"}
+var watchNames = []string{"/v_", "/v%", "/va", "/s1/v_", "/s1/va"}
 var volatileNames = []string{"/v_", "/v%", "/va", "/vab", "/s1/v_", "/s2/va"}
 
 func genPrograms(r interface{ Intn(int) int }, p concP) [][]COp {
@@ -358,6 +377,27 @@ func genPrograms(r interface{ Intn(int) int }, p concP) [][]COp {
 		var ops []COp
 		nfile := 0
 		var mine []string // private files that are closed
+		for p.Watch && (len(ops) < p.PerCl || (c%2 == 1 && len(ops) < 3*p.PerCl)) {
+			if c%2 == 1 {
+				// a watcher polls densely (listings are cheap): three times the calls of a mutating client, shorter pauses
+				ops = append(ops, COp{K: "hlist", A: watchDirs[r.Intn(len(watchDirs))], Cl: c})
+				continue
+			}
+			switch v := r.Intn(12); {
+			case v < 4:
+				ops = append(ops, COp{K: "mkdir", A: watchNames[r.Intn(len(watchNames))], Perm: 0o755, Cl: c})
+			case v < 8:
+				ops = append(ops, COp{K: "rename", A: watchNames[r.Intn(len(watchNames))], B: watchNames[r.Intn(len(watchNames))], Cl: c})
+			case v < 9:
+				ops = append(ops, COp{K: "mkdirall", A: path.Join(watchNames[r.Intn(len(watchNames))], "deep", "er"), Perm: 0o755, Cl: c})
+			case v < 10:
+				ops = append(ops, COp{K: "removeall", A: watchNames[r.Intn(len(watchNames))], Cl: c})
+			case v < 11:
+				ops = append(ops, COp{K: "remove", A: watchNames[r.Intn(len(watchNames))], Cl: c})
+			default:
+				ops = append(ops, COp{K: "hlist", A: watchDirs[r.Intn(len(watchDirs))], Cl: c})
+			}
+		}
 		for len(ops) < p.PerCl {
 			if p.Log && r.Intn(3) == 0 {
 				ops = append(ops, COp{K: "logwrite", Data: fmt.Sprintf("<c%d-%02d>", c, len(ops)), Cl: c})
@@ -435,7 +475,8 @@ type clientState struct {
 		Write([]byte) (int, error)
 		Close() error
 	}
-	log afero.File
+	log  afero.File
+	dirs map[string]afero.File // directory handles opened before the clients started (watch histories)
 }
 
 func execCOp(rig *Rig, cs *clientState, o COp) COut {
@@ -487,6 +528,17 @@ func execCOp(rig *Rig, cs *clientState, o COp) COut {
 		if err != nil {
 			return fail2(err)
 		}
+		return COut{OK: true, Names: n}
+	case "hlist":
+		h := cs.dirs[o.A]
+		if h == nil {
+			return fail2(errors.New("harness: no held handle"))
+		}
+		n, err := h.Readdirnames(-1)
+		if err != nil {
+			return fail2(err)
+		}
+		sort.Strings(n)
 		return COut{OK: true, Names: n}
 	case "read":
 		// the whole file in ONE Read call: a stream that is consumed over several calls keeps the drive between them, and any
@@ -717,6 +769,24 @@ func concRun(prop, tier string, c Case, w *Worker) (res Result) {
 		out := execCOp(rig, &clientState{log: logH}, first)
 		hist = append(hist, porcupine.Operation{ClientId: p.Clients, Input: first, Call: call, Output: out, Return: clock.Add(1)})
 	}
+	heldDirs := make([]map[string]afero.File, p.Clients)
+	if p.Watch {
+		for cl := range heldDirs {
+			heldDirs[cl] = map[string]afero.File{}
+			for _, d := range watchDirs {
+				if heldDirs[cl][d] != nil {
+					continue
+				}
+				h, err := rig.FS.Open(d)
+				if err != nil {
+					res.Verdict, res.Msg = "inconclusive", "opening a directory handle: "+err.Error()
+					return
+				}
+				heldDirs[cl][d] = h
+			}
+		}
+		res.count("histories_with_held_directory_handles", 1)
+	}
 	gids := make([]int64, p.Clients)
 	var wg sync.WaitGroup
 	start := make(chan struct{})
@@ -725,13 +795,17 @@ func concRun(prop, tier string, c Case, w *Worker) (res Result) {
 		go func(cl int) {
 			defer wg.Done()
 			gids[cl] = gid()
-			cs := &clientState{}
+			cs := &clientState{dirs: heldDirs[cl]}
 			if logH != nil {
 				cs.log = logH
 			}
 			<-start
 			for _, op := range progs[cl] {
-				jitter(2000)
+				if op.K == "hlist" {
+					jitter(400)
+				} else {
+					jitter(2000)
+				}
 				call := clock.Add(1)
 				out := execCOp(rig, cs, op)
 				ret := clock.Add(1)
@@ -747,6 +821,11 @@ func concRun(prop, tier string, c Case, w *Worker) (res Result) {
 	note("C11 %d clients x %d calls, procs=%d reopened=%v cfg=%s", p.Clients, p.PerCl, p.Procs, p.Reopened, cfg)
 	close(start)
 	wg.Wait()
+	for _, m := range heldDirs {
+		for _, h := range m {
+			_ = h.Close()
+		}
+	}
 	rig.Seams.mu.Lock()
 	rig.Seams.perturb = nil
 	gl := append([]int64(nil), rig.Seams.persistGor...)
@@ -1023,6 +1102,6 @@ func clip(s string, n int) string {
 func init() {
 	register(&Engine{Name: "conc", Props: []string{"C11"}, Cases: concCases, Run: concRun})
 	propMeta["C11"] = PropMeta{Level: "exploration",
-		Rule:        "per case 2..8 client goroutines run generated programs (3..6 API calls each: create/write/close of private files in shared directories, whole-file reads of shared files, mkdir, mkdirall, rename, remove, removeall on a small set of shared names with SQL wildcard characters, chmod/chown/chtimes, stat, list) against one instance (fresh, or reopened with an index rebuilt from the tape), GOMAXPROCS in {2,4,16}, with PRNG-driven yields/sleeps before every client call and at the drive open/close and drive-read seams; the binary is built with -race (a report kills the worker and is charged to the case); every call is recorded with call/return stamps from one atomic counter at the client boundary, and the history plus the final tree is checked for linearizability with porcupine against the reference model (write-back at close); in half of the histories all clients also append unique records through ONE shared O_APPEND handle - those appends are decided from the file content they leave (every acknowledged record exactly once, never torn or interleaved, nothing foreign, order consistent with real time: a record whose append returned before another was called precedes it) and the content is handed to the model at the close of the handle; then all locks must be free and the final tree must equal a rebuild from the tape; non-trivial = at least 3 overlapping call pairs of different clients and at least as many client switches at the index store as clients; distinct = distinct (interleaving signature, history); clients also call Seek / Stat / Sync on the shared handle, (separate histories: one READ-ONLY handle shared by 3-8 clients - parallel ReadAt must return exactly the bytes at its offset, Stat the size, and the one client that reads sequentially must see the file in order with a cursor equal to what it has read) and create lock files (OpenFile O_CREATE|O_EXCL + Close on three shared names) and remove them",
+		Rule:        "per case 2..8 client goroutines run generated programs (3..6 API calls each: create/write/close of private files in shared directories, whole-file reads of shared files, mkdir, mkdirall, rename, remove, removeall on a small set of shared names with SQL wildcard characters, chmod/chown/chtimes, stat, list) against one instance (fresh, or reopened with an index rebuilt from the tape), GOMAXPROCS in {2,4,16}, with PRNG-driven yields/sleeps before every client call and at the drive open/close and drive-read seams; the binary is built with -race (a report kills the worker and is charged to the case); every call is recorded with call/return stamps from one atomic counter at the client boundary, and the history plus the final tree is checked for linearizability with porcupine against the reference model (write-back at close); in half of the histories all clients also append unique records through ONE shared O_APPEND handle - those appends are decided from the file content they leave (every acknowledged record exactly once, never torn or interleaved, nothing foreign, order consistent with real time: a record whose append returned before another was called precedes it) and the content is handed to the model at the close of the handle; then all locks must be free and the final tree must equal a rebuild from the tape; non-trivial = at least 3 overlapping call pairs of different clients and at least as many client switches at the index store as clients; distinct = distinct (interleaving signature, history); clients also call Seek / Stat / Sync on the shared handle, (separate histories: one READ-ONLY handle shared by 3-8 clients - parallel ReadAt must return exactly the bytes at its offset, Stat the size, and the one client that reads sequentially must see the file in order with a cursor equal to what it has read) and create lock files (OpenFile O_CREATE|O_EXCL + Close on three shared names) and remove them; watch histories (60 quick / 1500 thorough): every client holds directory handles on / and /s1 that were opened BEFORE the concurrent phase, every second client only lists through them (three times as many calls, short pauses) while the others mkdir / rename (also onto existing directories) / mkdirall / removeall / remove five shared names - calls that are several index updates each; a listing through a held handle has the model of a listing: it must be the directory at one moment of some sequential order",
 		Assumptions: []string{"files are only read or rewritten through handles by clients for which the sequential model is unambiguous (shared files are never removed or renamed; private files are touched by their owner only): handle-versus-rename/remove shapes are sequential questions", "schedules the perturbed Go scheduler never produces are not explored", "a linearizability check that times out (60 s) is inconclusive"}}
 }
